@@ -3,12 +3,22 @@ package interp
 import (
 	"fmt"
 	"math"
+	"time"
 
 	"gosym/term"
 )
 
 // Remaining boundary models for whole-engine runs: clock, rand, math, atomics, RWMutex,
 // frugal (thrift binary of types.Entry), Sscanf, bytealg leaves.
+
+// clockSec: unix second of clock tick k (2024-01-01 00:00:00 UTC + k, or + 0 with SameSecond).
+func (m *Machine) clockSec(k uint64) int64 {
+	const base = 1704067200
+	if m.SameSecond {
+		return base
+	}
+	return base + int64(k)
+}
 
 type filterSummary struct{ members []Str }
 
@@ -74,17 +84,24 @@ func (m *Machine) sysIntrinsics() {
 		return out
 	}
 	add := map[string]in{
+		// clock: a counter; every time.Now is one tick.  A tick is one second (default) or,
+		// with SameSecond, all ticks fall into one second and only the nanosecond part (3 per
+		// tick: 3, 6, 9, 12, ...) distinguishes them.
 		"time.Now": func(m *Machine, fr *frame, a []value) value {
 			m.clock++
+			if m.inWalCreate {
+				m.walClock = append(m.walClock, [2]int64{m.clockSec(uint64(m.clock)), int64(m.clock) * 3})
+			}
 			return structure{m.st.BV(64, 0), m.st.BV(64, uint64(m.clock)), (*value)(nil)}
+		},
+		"github.com/B1NARY-GR0UP/originium/wal.Create": func(m *Machine, fr *frame, a []value) value {
+			m.inWalCreate = true
+			defer func() { m.inWalCreate = false }()
+			return m.callRealByName("github.com/B1NARY-GR0UP/originium/wal.Create", a)
 		},
 		"(time.Time).Format": func(m *Machine, fr *frame, a []value) value {
 			k := cst(a[0].(structure)[1])
-			sec := k
-			if m.SameSecond {
-				sec = 0
-			}
-			return m.strConst(fmt.Sprintf("%014d", 20240101000000+sec))
+			return m.strConst(time.Unix(m.clockSec(k), 0).UTC().Format(strArg(a[1])))
 		},
 		"(time.Time).Nanosecond": func(m *Machine, fr *frame, a []value) value {
 			k := cst(a[0].(structure)[1])
